@@ -60,7 +60,7 @@ func TestC17(t *testing.T) {
 	e := vlib.GetEnv()
 	var cat []c17case
 	for _, how := range []string{"Shutdown", "QueuesStop", "OperatorStop"} {
-		for _, bo := range []string{"none", "after-fail", "mid-delay", "on-tick", "at-expiry"} {
+		for _, bo := range []string{"none", "after-fail", "mid-delay", "on-tick", "at-expiry", "second-backoff-tail"} {
 			for _, inf := range []int{-1, 0, 1, 5} {
 				cat = append(cat, c17case{BackoffStop: bo, InFlight: inf, How: how})
 			}
@@ -102,7 +102,7 @@ func c17run(c *vlib.Case, cs c17case, res *vlib.Result) {
 	execsBefore, execsAfter := 0, 0
 	var trace []string
 	logf := func(f string, a ...any) { trace = append(trace, fmt.Sprintf(f, a...)) }
-	quiescent := cs.BackoffStop == "none" || cs.BackoffStop == "mid-delay"
+	quiescent := cs.BackoffStop == "none" || cs.BackoffStop == "mid-delay" || cs.BackoffStop == "second-backoff-tail"
 
 	inBubble(c, func(t *testing.T) {
 		sys, err := vlib.NewSys(hs, nil)
@@ -221,6 +221,37 @@ func c17run(c *vlib.Case, cs c17case, res *vlib.Result) {
 				return
 			}
 			switch cs.BackoffStop {
+			case "second-backoff-tail":
+				// the back-off after the second consecutive failure is not a multiple of the wait loop's check
+				// interval (it carries a random part): stop in the last, partial interval before it expires
+				var fail2 time.Time
+				for i := 0; i < 80 && fail2.IsZero(); i++ {
+					sys.Advance(125 * time.Millisecond)
+					nf := 0
+					for _, ev := range sys.Pts.Log() {
+						if ev.Name == "q.handler.exit" && ev.Args[0].(string) == "qf" && fmt.Sprint(ev.Args[3]) == "Fail" {
+							nf++
+							if nf == 2 {
+								fail2 = ev.VT
+							}
+						}
+					}
+				}
+				st := sys.Op.TaskQueues.GetByName("qf").GetStatus()
+				d, perr := time.ParseDuration(strings.TrimPrefix(st, "sleep after fail for "))
+				if fail2.IsZero() || perr != nil {
+					res.Inconclusive = fmt.Sprintf("second failure not reached or delay unknown (status %q)", st)
+					return
+				}
+				rem := d % (125 * time.Millisecond)
+				at := fail2.Add(d - rem/2)
+				if rem == 0 {
+					at = fail2.Add(d - 60*time.Millisecond)
+				}
+				time.Sleep(time.Until(at))
+				synctest.Wait()
+				failExit = fail2
+				logf("second back-off of qf is %v (remainder %v over the 125ms check interval)", d, rem)
 			case "after-fail":
 				// stop at the very instant of the failure (no time advance since)
 			case "mid-delay":
